@@ -1,8 +1,10 @@
 import Driver.Util
 import Driver.Ext4Tree
+import Driver.Ext4Dir
 import DiskfsModel.Model.Ext4.Bitmap
 import DiskfsModel.Model.Ext4.FileIO
 import DiskfsModel.Model.Ext4.DirPack
+import DiskfsModel.Model.Ext4.DirCsum
 import DiskfsModel.Model.Ext4.Alloc
 import DiskfsModel.Model.Ext4.AllocSlow
 import DiskfsModel.Model.Ext4.Links
@@ -40,7 +42,8 @@ def rw (args : List String) : String :=
   let es := parseExtents ((arg args "ext").getD "-")
   match arg args "op" with
   | some "read" =>
-    match readE lt patDev bs es size off n with
+    -- `skipneg=1`: File.Read has the guard `if leftInExtent < 0 { continue }` (readES false = readE)
+    match readES (argNatD args "skipneg" == 1) lt patDev bs es size off n with
     | .ok r => s!"io={joinOr (r.ios.map fun p => s!"{p.1}:{p.2}")}\tn={r.data.length}\teof={if r.eof then 1 else 0}\toff={r.off}\tfnv={fnv r.data}"
     | .panic => "panic"
     | .weird => "weird"
@@ -105,6 +108,12 @@ def dirRewrite (args : List String) : String :=
   let pad := argNatD args "pad" == 1
   let old := (argHex args "old").getD []
   let ents := parseEnts ((arg args "ents").getD "")
+  match arg args "seed" with
+  | some _ =>
+    -- the real checksum tail: filesystem seed, the directory's inode number and generation; nothing is masked
+    let out := DirPack.rewriteDir pad bs csum (DirPack.dirTail (argNatD args "seed") (argNatD args "ino") (argNatD args "gen")) old ents
+    s!"out={hexOr out}"
+  | none =>
   let out := DirPack.rewriteDir pad bs csum zeroTail old ents
   s!"out={hexOr (if csum then maskCsum bs out.length out else out)}"
 
@@ -284,4 +293,4 @@ def main : IO Unit := Driver.runLoop fun op args =>
   | "ext4acc.remove" => Driver.Ext4Ops.accRemove args
   | "ext4acc.dealloc" => Driver.Ext4Ops.accDealloc args
   | "ext4links.step" => Driver.Ext4Ops.linksStep args
-  | _ => (Driver.Ext4Tree.dispatch op args).getD "unknown-op"
+  | _ => ((Driver.Ext4Tree.dispatch op args).orElse fun _ => Driver.Ext4Dir.dispatch op args).getD "unknown-op"
